@@ -834,3 +834,86 @@ def check_copy_total(ctx, rule="COPYALL"):
         if calls:
             ctx.decide(not bad, rule, q + ":copy-args", (ci, (bad or calls)[0]), "frames are copied with the default (vacuous) bound",
                        f"`{U(bad[0]) if bad else ''}` filters the members of a frame while it is stored")
+
+
+def _member_attr_collection(v):
+    """(attribute, filter texts, member var) when ``v`` is `[m.attr for m in self if …]` (list/generator/np.array of it)"""
+    if isinstance(v, ast.Call) and (dotted(v.func) or "").split(".")[-1] in ("array", "asarray", "list", "tuple", "fromiter") and v.args:
+        v = v.args[0]
+    if isinstance(v, (ast.ListComp, ast.GeneratorExp)) and len(v.generators) == 1 and U(v.generators[0].iter) == "self" and isinstance(v.generators[0].target, ast.Name):
+        mv = v.generators[0].target.id
+        if isinstance(v.elt, ast.Attribute) and isinstance(v.elt.value, ast.Name) and v.elt.value.id == mv:
+            return v.elt.attr, sorted(U(t) for t in v.generators[0].ifs), mv
+    return None
+
+
+def check_statistics(ctx, rule="STAT"):
+    """Summary queries are reductions over the members' *own* properties: the size statistics take every member's `.radius`
+    and `.volume` (perturbed droplets and members of another dimension have volumes that are not the sphere formula of their
+    radius), with one filter for both lists; the total volume sums every member's `.volume`."""
+    m = ctx.model
+    fi = m.func(f"{EM}.Emulsion.get_size_statistics")
+    fv = view(m, fi)
+    site = fi.qualname
+    rets = [n for n in fv.return_nodes() if isinstance(n.stmt.value, ast.Dict) and any(isinstance(k, ast.Constant) and k.value == "volume_mean" and isinstance(v_, ast.Call) for k, v_ in zip(n.stmt.value.keys, n.stmt.value.values))]
+    if len(rets) != 1:
+        ctx.undecided(rule, site, fi, "result dictionary with 'volume_mean' not found")
+    else:
+        rn = rets[0]
+        d = {k.value: v for k, v in zip(rn.stmt.value.keys, rn.stmt.value.values) if isinstance(k, ast.Constant)}
+        want = {"radius_mean": ("radius", "mean"), "radius_std": ("radius", "std"), "volume_mean": ("volume", "mean"), "volume_std": ("volume", "std")}
+        filt_by_attr = {}
+        for key, (attr, red) in want.items():
+            v = d.get(key)
+            if not (isinstance(v, ast.Call) and (dotted(v.func) or "").split(".")[-1] in (red, "nan" + red) and v.args):
+                ctx.undecided(rule, f"{site}:{key}", (fi, rn.stmt), f"entry is not np.{red}(<collection>)")
+                continue
+            if (dotted(v.func) or "").split(".")[-1] != red or any(k.arg in ("ddof", "weights", "axis") for k in v.keywords):
+                ctx.violate(rule, f"{site}:{key}", (fi, v), f"`{U(v)[:60]}` is not the plain {red} over the members")
+                continue
+            src = v.args[0]
+            defs = []
+            if isinstance(src, ast.Name):
+                for dn in fv.defs_reaching(src.id, rn):
+                    val = fv.value_of_def(dn, src.id) if dn.stmt is not None else None
+                    defs.append((dn, val))
+            else:
+                defs.append((rn, src))
+            bad = None
+            n_ok = 0
+            # a list filled by a loop over the members: empty initialisation + appending loop ≡ comprehension
+            if isinstance(src, ast.Name) and any(isinstance(val, ast.List) and not val.elts for _d, val in defs if val is not None):
+                from ..astutil import loop_as_comprehension
+
+                comps = [loop_as_comprehension(lp_, src.id) for lp_ in fv.statements() if isinstance(lp_, ast.For)]
+                comps = [c_ for c_ in comps if c_ is not None]
+                if len(comps) == 1:
+                    defs = [(rn, comps[0])]
+            for dn, val in defs:
+                r = _member_attr_collection(val) if val is not None else None
+                if r is None:
+                    # a filtered copy of a recognised collection (x = x[x > 0]) or anything else that is not the members' own property
+                    bad = (dn.stmt if getattr(dn, "stmt", None) is not None else rn.stmt, "is not a collection of the members' own `." + attr + "`")
+                elif r[0] != attr:
+                    bad = (dn.stmt, f"collects `.{r[0]}` of the members, not `.{attr}`")
+                else:
+                    n_ok += 1
+                    filt_by_attr.setdefault(attr, set()).add((tuple(t.replace(r[2] + ".", "m.") for t in r[1])))
+            if bad:
+                ctx.violate(rule, f"{site}:{key}", (fi, bad[0]), f"`{U(bad[0])[:80]}` {bad[1]}: the statistic no longer equals its definition over the members "
+                            "(e.g. the volume of a perturbed droplet, or of a member of another dimension, is not the sphere volume of its radius)")
+            elif n_ok:
+                ctx.hold(rule, f"{site}:{key}", (fi, v), f"{red} over every member's own .{attr}")
+        if "radius" in filt_by_attr and "volume" in filt_by_attr:
+            ctx.decide(filt_by_attr["radius"] == filt_by_attr["volume"], rule, f"{site}:same-filter", (fi, rn.stmt), "radii and volumes are taken from the same members",
+                       f"radii are filtered by {sorted(filt_by_attr['radius'])} but volumes by {sorted(filt_by_attr['volume'])}")
+    q = f"{EM}.Emulsion.total_droplet_volume"
+    if m.has_func(q):
+        ti = m.func(q)
+        r_ = [s_ for s_ in ast.walk(ti.node) if isinstance(s_, ast.Return) and s_.value is not None]
+        if len(r_) == 1 and isinstance(r_[0].value, ast.Call) and (dotted(r_[0].value.func) or "").split(".")[-1] in ("sum", "fsum") and r_[0].value.args:
+            c = _member_attr_collection(r_[0].value.args[0])
+            ctx.decide(c is not None and c[0] == "volume" and not c[1], rule, q, (ti, r_[0]), "sum of every member's own .volume",
+                       f"`{U(r_[0].value)[:70]}` is not the sum of every member's own .volume")
+        else:
+            ctx.undecided(rule, q, ti, "not a single sum(...)")
